@@ -1,8 +1,96 @@
-(* C02 — multiplication is exact in every algorithm regime (placeholder until the proofs land). *)
-From BigNum Require Import Base BaseLemmas AddSub Mul SpecMul Extracted.
+(* C02 — multiplication is exact in every algorithm regime and at every size boundary.
+   Statements only; proofs live in proofs/MulProofs*.v (generic in the source-extracted
+   parameters under [mul_ok]) and are instantiated at the parameters extracted from /repo's
+   current source.  All statements are FULL (no `_partial`): every regime — long
+   multiplication, half-Karatsuba, Karatsuba with its three sign arms, Toom-3 with Bodrato
+   interpolation — for operands of any length; `= Ret ...` includes: no internal assertion, no
+   index out of range, no u128 overflow, the fuel suffices, the result is normalised. *)
+From BigNum Require Import Base BaseLemmas X86 AddSub AddSubProofs Mul SpecMul
+  MulProofs MulProofs3 MulProofs5 Extracted InstMul.
 Open Scope Z_scope.
 
+(** `&a * &b`, `a * b`, ... (impl_mul!) *)
+Theorem C02_umul : forall a b, canon a -> canon b ->
+  umul mul a b = omap enc (spec_umul (val a) (val b)).
+Proof. intros; apply umul_spec; auto using mul_params_ok. Qed.
+Print Assumptions C02_umul.
+
+(** `a *= &b` (impl_mul_assign!) *)
+Theorem C02_umul_assign : forall a b, canon a -> canon b ->
+  umul_assign mul a b = omap enc (spec_umul (val a) (val b)).
+Proof. intros; apply umul_assign_spec; auto using mul_params_ok. Qed.
+Print Assumptions C02_umul_assign.
+
+Theorem C02_uchecked_mul : forall a b, canon a -> canon b ->
+  uchecked_mul mul a b = omap (option_map enc) (spec_uchecked_mul (val a) (val b)).
+Proof. intros; apply uchecked_mul_spec; auto using mul_params_ok. Qed.
+Print Assumptions C02_uchecked_mul.
+
+(** `a * s` for s : u32 / u64 (zero, one, power-of-two shift, carry loop) *)
+Theorem C02_umul_digit : forall a s, canon a -> 0 <= s < B ->
+  umul_digit a s = omap enc (spec_umul (val a) s).
+Proof. intros; apply umul_digit_spec; auto. Qed.
+Print Assumptions C02_umul_digit.
+
+(** `a * s` for s : u128 *)
+Theorem C02_umul_u128 : forall a s, canon a -> 0 <= s < B * B ->
+  umul_u128 mul a s = omap enc (spec_umul (val a) s).
+Proof. intros; apply umul_u128_spec; auto using mul_params_ok. Qed.
+Print Assumptions C02_umul_u128.
+
+(** BigInt: all sign combinations, zero is NoSign *)
+Theorem C02_imul : forall x y, icanon x -> icanon y ->
+  imul mul x y = omap ienc (spec_imul (ival x) (ival y)).
+Proof. intros; apply imul_spec; auto using mul_params_ok. Qed.
+Print Assumptions C02_imul.
+
+Theorem C02_imul_assign : forall x y, icanon x -> icanon y ->
+  imul_assign mul x y = omap ienc (spec_imul (ival x) (ival y)).
+Proof. intros; apply imul_assign_spec; auto using mul_params_ok. Qed.
+Print Assumptions C02_imul_assign.
+
+Theorem C02_ichecked_mul : forall x y, icanon x -> icanon y ->
+  ichecked_mul mul x y = omap (option_map ienc) (spec_ichecked_mul (ival x) (ival y)).
+Proof. intros; apply ichecked_mul_spec; auto using mul_params_ok. Qed.
+Print Assumptions C02_ichecked_mul.
+
+(** `x * s` for unsigned scalars (wide = u128) and signed scalars (wide = i128) *)
+Theorem C02_imul_uscalar : forall (wide : bool) x s, icanon x ->
+  0 <= s < (if wide then B * B else B) ->
+  imul_uscalar mul wide x s = omap ienc (spec_imul (ival x) s).
+Proof. intros; apply imul_uscalar_spec; auto using mul_params_ok. Qed.
+Print Assumptions C02_imul_uscalar.
+
+Theorem C02_imul_iscalar : forall (wide : bool) x s, icanon x ->
+  - (if wide then B * B else B) < s < (if wide then B * B else B) ->
+  imul_iscalar mul wide x s = omap ienc (spec_imul (ival x) s).
+Proof. intros; apply imul_iscalar_spec; auto using mul_params_ok. Qed.
+Print Assumptions C02_imul_iscalar.
+
+(** Internal contract (hook level): `mac3(acc, b, c)` adds b*c in place for ANY digit slices
+    (high / low zero digits allowed) whenever the buffer has room
+    [val acc + val b * val c + B^(|b|+|c|) <= B^|acc|]; `mul3` for any slices. *)
+Theorem C02_mac3 : forall acc b c, wf acc -> wf b -> wf c -> room acc b c ->
+  exists acc', mac3 (fuel3 b c) mul acc b c = Ret acc' /\
+               wf acc' /\ length acc' = length acc /\ val acc' = val acc + val b * val c.
+Proof. intros; apply mac3_spec; auto using mul_params_ok. Qed.
+Print Assumptions C02_mac3.
+
+Theorem C02_mul3 : forall x y, wf x -> wf y -> mul3 mul x y = Ret (enc (val x * val y)).
+Proof. intros; apply mul3_spec; auto using mul_params_ok. Qed.
+Print Assumptions C02_mul3.
+
+Theorem C02_scalar_mul : forall a s, canon a -> 0 <= s < B -> scalar_mul a s = Ret (enc (val a * s)).
+Proof. intros; apply scalar_mul_spec; auto. Qed.
+Print Assumptions C02_scalar_mul.
+
+(* Non-vacuity: canonical multi-digit operands exist; the product below runs through the
+   Karatsuba regime (40 x 40 digits) and is exact. *)
 Example C02_nonvacuous :
-  canonb [B - 1; B - 1; 7] = true /\ canonb [B - 1; 3] = true /\
-  umul mul [B - 1; B - 1; 7] [B - 1; 3] = Ret (enc (val [B - 1; B - 1; 7] * val [B - 1; 3])).
-Proof. split; [|split]; vm_compute; reflexivity. Qed.
+  canonb (repeat (B - 1) 40) = true /\
+  umul mul (repeat (B - 1) 40) (repeat (B - 1) 40) = Ret (enc ((B ^ 40 - 1) * (B ^ 40 - 1))) /\
+  room (zeros 5) [B - 1; B - 1] [B - 1; 7].
+Proof.
+  split; [vm_compute; reflexivity|]. split; [vm_compute; reflexivity|].
+  unfold room, fits. vm_compute. discriminate.
+Qed.
